@@ -3,7 +3,7 @@ import Proofs.LinksMeasure
 C19 — hyperlinks are well-formed, transparent, and point at the right target.
 
 Model: `DeltaModel/Links.lean` — `format_osc8_hyperlink`, the file-link template substitution
-(sequential `str::replace`), commit links over the regex's match spans (a parameter),
+(sequential `str::replace`, in the order the source has), commit links over the regex's match spans (a parameter),
 `absolute_path`'s case analysis, and every call site that consults `config.hyperlinks`
 (`Generated.linkSites`, re-read from the source on every run) as a function of `links : Bool`.
 The scanner `stripOsc8` / `finalLink` / `linked` is an independent specification-side reading of
@@ -129,10 +129,13 @@ theorem site_transparent_file_path (c : Cfg) (hc : CfgOk c) (file : Bytes) (line
   · exact hp
   · exact filePiece_okT c hc _ _ _ hp
 
-/-- Line-number gutter (`format_line_number`) — provided an absolute path can be formed. -/
+/-- Line-number gutter (`format_line_number`). In the repaired source (`gutterNumberWithoutAbs`, read
+from the source on every run) unconditionally; in the original one provided an absolute path can
+be formed. -/
 theorem site_transparent_line_number (c : Cfg) (hc : CfgOk c) (n : Option Nat) (plusFile : Option Bytes)
     (padded : Nat → Bytes) (blank : Bytes)
-    (habs : ∀ file, plusFile = some file → absolutePath c.path file ≠ none)
+    (habs : Generated.gutterNumberWithoutAbs = true ∨
+      ∀ file, plusFile = some file → absolutePath c.path file ≠ none)
     (hpad : ∀ k, escSafe (padded k) = true) (hb : escSafe blank = true) :
     stripOsc8 (formatLineNumber c true n plusFile padded blank) =
       formatLineNumber c false n plusFile padded blank ∧
@@ -147,16 +150,23 @@ theorem site_transparent_line_number (c : Cfg) (hc : CfgOk c) (n : Option Nat) (
   · exact filePiece_okT c hc _ _ _ (hpad _)
   · exact hpad _
 
-/-- The deviation found by reading (`format_line_number`): without an absolute path — the working
-directory of the delta process cannot be determined — `site_transparent` is **false** for the
-gutter: the file name is printed in place of the number. (Confirmed on the binary from a deleted
-working directory; see notes/C19.md.) -/
-theorem site_transparent_line_number_false :
-    ∃ (c : Cfg) (file : Bytes) (padded : Nat → Bytes),
-      stripOsc8 (formatLineNumber c true (some 7) (some file) padded []) ≠
-        formatLineNumber c false (some 7) (some file) padded [] :=
-  ⟨⟨[], none, .none, ⟨none, none, false, fun a b => a ++ b⟩⟩, [0x61, 0x2e, 0x72, 0x73],
-   fun _ => [0x20, 0x37], by decide⟩
+/-- A configuration in which no absolute path can be formed (the working directory of the delta
+process is unknown), the file `a.rs`, line 7 shown as ` 7`. -/
+def gutterWitnessCfg : Cfg := ⟨[], none, .none, ⟨none, none, false, fun a b => a ++ b⟩⟩
+
+/-- The deviation found by reading (`format_line_number`), on the original source: without an
+absolute path the file name is printed in place of the number, so `site_transparent` is **false**
+for the gutter. (Confirmed on the binary from a deleted working directory; repaired by 799b717.) -/
+theorem site_transparent_line_number_false : Generated.gutterNumberWithoutAbs = false →
+    stripOsc8 (formatLineNumber gutterWitnessCfg true (some 7) (some [0x61, 0x2e, 0x72, 0x73]) (fun _ => [0x20, 0x37]) []) ≠
+      formatLineNumber gutterWitnessCfg false (some 7) (some [0x61, 0x2e, 0x72, 0x73]) (fun _ => [0x20, 0x37]) [] := by
+  decide
+
+/-- …and on the repaired source the same call is transparent. -/
+theorem site_transparent_line_number_witness : Generated.gutterNumberWithoutAbs = true →
+    stripOsc8 (formatLineNumber gutterWitnessCfg true (some 7) (some [0x61, 0x2e, 0x72, 0x73]) (fun _ => [0x20, 0x37]) []) =
+      formatLineNumber gutterWitnessCfg false (some 7) (some [0x61, 0x2e, 0x72, 0x73]) (fun _ => [0x20, 0x37]) [] := by
+  decide
 
 /-- Commit lines (`_handle_commit_meta_header_line`), both the stripped and the raw line. -/
 theorem site_transparent_commit_meta (c : Cfg)
@@ -221,22 +231,32 @@ theorem link_targets (ps : List Piece) (h : ∀ p ∈ ps, p.ok) : linked (render
 /-- File links carry the absolute path — and, where `{line}` occurs, the number: for a template
 of literal segments and `{path}` / `{host}` / `{line}`, the URL is the template with the
 placeholders replaced by `absolute_path file`, the host name and the line number. The gutter
-site passes the very number it displays (`lineNumberPieces`: `fileLink … (some n) (padded n)`). -/
+site passes the very number it displays (`lineNumberPieces`: `fileLink … (some n) (padded n)`).
+In the repaired source (`{path}` substituted last, `Generated.fileLinkPathLast`) this holds for
+*every* path; in the original order only for a path without `{`. -/
 theorem link_target_file (tm : List Seg) (hwf : ∀ seg ∈ tm, seg.wf) (p : Bytes) (host : Option Bytes)
-    (hp : noBrace p = true) (hh : ∀ h, host = some h → noBrace h = true) (line : Option Nat) :
+    (hp : Generated.fileLinkPathLast = false → noBrace p = true)
+    (hh : ∀ h, host = some h → noBrace h = true) (line : Option Nat) :
     fileUrl (renderT tm) p host line = (tm.map (Seg.subst p host (lineBytes line))).flatten :=
   fileUrl_template tm hwf p host hp hh line
 
 /-- `file-line://{path}:{line}` at `/a/b.rs`, line 12. -/
-example : fileUrl (renderT [.lit [0x66, 0x3a], .path, .lit [0x3a], .line]) [0x2f, 0x61] none (some 12) =
+example : fileUrl (renderT [.lit [0x66, 0x3a], .ph .path, .lit [0x3a], .ph .line]) [0x2f, 0x61] none (some 12) =
     [0x66, 0x3a, 0x2f, 0x61, 0x3a, 0x31, 0x32] := by decide
 
-/-- The side condition is needed: a file whose name contains a placeholder is linked to another
-path (`/{line}` at line 3 → `f:/3`). Found by reading, confirmed on the binary. -/
-theorem link_target_file_placeholder_in_path :
-    fileUrl (renderT [.lit [0x66, 0x3a], .path]) [0x2f, 0x7b, 0x6c, 0x69, 0x6e, 0x65, 0x7d] none (some 3) ≠
-      [0x66, 0x3a] ++ [0x2f, 0x7b, 0x6c, 0x69, 0x6e, 0x65, 0x7d] :=
-  fileUrl_placeholder_in_path
+/-- On the original source the side condition is needed: a file whose name contains a placeholder is
+linked to another path (`/{line}` at line 3 → `f:/3`). Found by reading, confirmed on the binary,
+repaired by 7b33a1a. -/
+theorem link_target_file_placeholder_in_path : Generated.fileLinkPathLast = false →
+    fileUrl (renderT [.lit [0x66, 0x3a], .ph .path]) [0x2f, 0x7b, 0x6c, 0x69, 0x6e, 0x65, 0x7d] none (some 3) ≠
+      [0x66, 0x3a] ++ [0x2f, 0x7b, 0x6c, 0x69, 0x6e, 0x65, 0x7d] := by
+  decide
+
+/-- …and on the repaired source that very file is linked to its own path. -/
+theorem link_target_file_placeholder_in_path_kept : Generated.fileLinkPathLast = true →
+    fileUrl (renderT [.lit [0x66, 0x3a], .ph .path]) [0x2f, 0x7b, 0x6c, 0x69, 0x6e, 0x65, 0x7d] none (some 3) =
+      [0x66, 0x3a] ++ [0x2f, 0x7b, 0x6c, 0x69, 0x6e, 0x65, 0x7d] := by
+  decide
 
 /-- The line-number gutter links the displayed number: the number in the URL and the padded number
 shown come from the same `n`. -/
